@@ -131,6 +131,35 @@ def witness(o):
     return None
 
 
+def eval_shards(ctx, base, texts, prints, timeout=1500, workers=12):
+    """coq_eval_shards, with one retry of shards that did not compile: the coq/ tree is shared, and another check
+    rebuilding a library while a shard loads it gives a transient 'inconsistent assumptions' error."""
+    res = ctx.coq_eval_shards(base, texts, prints, timeout=timeout, workers=workers)
+    bad = [i for i, r in enumerate(res) if r is None]
+    if bad:
+        with vlib.Lock():
+            vlib.make_targets(COQ_TARGETS)
+        ctx.broken[:] = [b for b in ctx.broken
+                         if not (b.get("kind") == "correspondence" and str(b.get("what", "")).startswith("cases/%s_" % base))]
+        ctx.note("%d cases shard(s) did not compile; libraries rebuilt, retrying once" % len(bad))
+        retry = ctx.coq_eval_shards(base + "_retry", [texts[i] for i in bad], prints, timeout=timeout, workers=workers)
+        for i, r in zip(bad, retry):
+            res[i] = r
+    return res
+
+
+def rebuild_if_make_flaked(ctx):
+    """The coq/ tree and its _CoqProject are shared with checks that add files while this one runs; a make failure
+    without any Coq error message (no file/line) is such an infrastructure hiccup: build once more.  A proof that
+    really fails reports its file and line and is never retried."""
+    flaky = [b for b in ctx.broken if b.get("kind") == "obligation" and b.get("file") == "?"]
+    if not flaky:
+        return
+    ctx.note("make failed without a Coq error (%s); building once more" % str(flaky[0].get("error", ""))[-160:].replace("\n", " "))
+    ctx.broken[:] = [b for b in ctx.broken if b not in flaky]
+    ctx.build(COQ_TARGETS, PROPERTIES_FILE)
+
+
 def apply_replay(ctx):
     """--replay FILE: the generators are deterministic in (seed, tier), so re-running the harness with the recorded
     seed and tier reproduces the recorded observation (the replay file also holds it verbatim)."""
@@ -150,6 +179,7 @@ def apply_replay(ctx):
 
 def run(ctx):
     apply_replay(ctx)
+    rebuild_if_make_flaked(ctx)
     obs = []
     from concurrent.futures import ThreadPoolExecutor
     with ThreadPoolExecutor(max_workers=4) as ex:
@@ -192,7 +222,7 @@ def run(ctx):
                      "Definition cases : list c20case := [\n  %s\n].\n"
                      "Definition M := Eval vm_compute in mismatches cases.\nPrint M.\n"
                      "Definition P := Eval vm_compute in property_failures cases.\nPrint P.\n" % ";\n  ".join(texts_of[i] for i in g))
-    res = ctx.coq_eval_shards("C20_cases", texts, ["M", "P"], timeout=1500, workers=12)
+    res = eval_shards(ctx, "C20_cases", texts, ["M", "P"])
     nm_ = 0
     for g, r in zip(groups, res):
         if r is None:
